@@ -10,6 +10,7 @@ import (
 	"net/textproto"
 	"net/url"
 	"os"
+	"strconv"
 	"strings"
 	"sync/atomic"
 	"testing"
@@ -483,6 +484,47 @@ func genUpload(t *rapid.T) UploadCase {
 		mb, _ := json.Marshal(map[string][]string{"0": {bad}})
 		c.Parts[1].Data = mb
 		c.Parts = c.Parts[:3]
+	case 12, 13:
+		// one segment of a valid path of this very request is changed: an index equal to the length of
+		// its list (one past the end), further out, negative or not a number; a name the object does
+		// not have; an index where a name belongs and the reverse; a segment too many or too few
+		c.Defect, c.WellFormed = "path-segment-mutated", false
+		segs := strings.Split(rapid.SampledFrom(paths).Draw(t, "path"), ".")
+		i := rapid.IntRange(0, len(segs)-1).Draw(t, "seg")
+		_, isIndex := strconv.Atoi(segs[i])
+		mut := rapid.IntRange(0, 7).Draw(t, "segmut")
+		switch {
+		case mut == 0 && isIndex == nil:
+			segs[i] = fmt.Sprint(n) // == len(list)
+			vfrun.Label("upload-path:index-equals-length")
+		case mut == 1 && isIndex == nil:
+			segs[i] = fmt.Sprint(n + rapid.IntRange(1, 3).Draw(t, "past"))
+		case mut == 2 && isIndex == nil:
+			segs[i] = rapid.SampledFrom([]string{"-1", "-0", "x", "1e0", " 0", "18446744073709551616"}).Draw(t, "badindex")
+		case mut <= 2 || mut == 3:
+			segs[i] = rapid.SampledFrom([]string{"nope", "0", "", "F"}).Draw(t, "badname")
+		case mut == 4:
+			segs = append(segs, rapid.SampledFrom([]string{"0", "f", ""}).Draw(t, "extra"))
+		case mut == 5 && len(segs) > 1:
+			segs = segs[:len(segs)-1]
+		case mut == 6:
+			segs = append(segs[:i:i], append([]string{"0"}, segs[i:]...)...)
+		default:
+			segs[i] = segs[i] + "x"
+		}
+		bad := "variables." + strings.Join(segs, ".")
+		mb, _ := json.Marshal(map[string][]string{"0": {bad}})
+		c.Parts[1].Data = mb
+		c.Parts = c.Parts[:3]
+	case 14:
+		// the list the path indexes into is empty (or shorter than the valid request's)
+		c.Defect, c.WellFormed = "path-into-shorter-list", false
+		short := rapid.IntRange(0, n-1).Draw(t, "shorter")
+		sv, _ := sh.vars(short)
+		if short == 0 {
+			sv = strings.NewReplacer(`[null]`, `[]`, `[{"f":null}]`, `[]`).Replace(func() string { v, _ := sh.vars(1); return v }())
+		}
+		c.Parts[0].Data = []byte(fmt.Sprintf(`{"query":%q,"variables":%s}`, sh.query, sv))
 	case 1:
 		c.Defect, c.WellFormed = "no-operations", false
 		c.Parts = c.Parts[1:]
